@@ -29,7 +29,7 @@ def filters():
     return out, defs
 
 
-def build(d, tag, fmt, n_models, n_ap, perm, sord='wav-desc', seed=0, n_cols=2, distinct=True, grids='same', dead=False):
+def build(d, tag, fmt, n_models, n_ap, perm, sord='wav-desc', seed=0, n_cols=2, distinct=True, grids='same', dead=False, funit='mJy'):
     """Returns dict(md, names (physical order), table_order, flux (n_models, n_ap, n_wav on W_ASC), err, ap, pardict)."""
     rng = np.random.default_rng(seed * 23 + n_models * 5 + n_ap)
     names = ['sp_%s' % 'qbxamczk'[i] for i in range(n_models)]
@@ -61,10 +61,12 @@ def build(d, tag, fmt, n_models, n_ap, perm, sord='wav-desc', seed=0, n_cols=2, 
         pkgwriter.write_parameters(md, names, cols, order=perm)
         for m, nm in enumerate(names):
             wf = wavs[m] if sord == 'wav-asc' else wavs[m][::-1]
-            pkgwriter.write_sed_file(md, nm, wf, flux[m][:, idx_file], err[m][:, idx_file], apertures_au=ap)
+            fsc = 1e-3 if funit == 'Jy' else 1.0
+            pkgwriter.write_sed_file(md, nm, wf, flux[m][:, idx_file] * fsc, err[m][:, idx_file] * fsc, unit=funit, apertures_au=ap)
     else:
         pkgwriter.write_parameters(md, table_order, {k: v[perm] for k, v in cols.items()})
-        pkgwriter.write_cube(md, table_order, wav_file, flux[perm][:, :, idx_file], unc=err[perm][:, :, idx_file], apertures_au=ap)
+        fsc = 1e-3 if funit == 'Jy' else 1.0
+        pkgwriter.write_cube(md, table_order, wav_file, flux[perm][:, :, idx_file] * fsc, unc=err[perm][:, :, idx_file] * fsc, unit=funit, apertures_au=ap)
     pardict = {names[m]: [cols['PAR%d' % (c + 1)][m] for c in range(n_cols)] for m in range(n_models)}
     return {'md': md, 'names': names, 'table_order': table_order, 'flux': flux, 'err': err, 'ap': ap, 'pardict': pardict, 'colnames': list(cols), 'wavs': wavs}
 
